@@ -318,11 +318,17 @@ fn main() {
             let seed: u64 = argv.get(3).and_then(|s| s.parse().ok()).unwrap_or(1);
             let iters: u64 = argv.get(4).and_then(|s| s.parse().ok()).unwrap_or(200_000);
             let mut rng = Rng(seed ^ 0xC0FFEE);
+            let trace = std::env::var("VX_TRACE").ok();
             let mut tried = 0u64;
             let mut in_pre = 0u64;
             for _ in 0..iters {
                 let args: Vec<Arg> = op.sig.iter().map(|t| gen_arg(*t, &mut rng)).collect();
                 tried += 1;
+                if let Some(path) = &trace {
+                    // crash isolation: record the input BEFORE running it (a stack overflow / abort cannot be caught)
+                    let args_v: Vec<Value> = args.iter().map(|a| a.to_json()).collect();
+                    let _ = std::fs::write(path, json!({"op": op.name, "args": args_v, "tried": tried}).to_string());
+                }
                 let r = run_op(op, &args, false);
                 if r.get("outside_precondition").is_none() {
                     in_pre += 1;
